@@ -141,6 +141,102 @@ def bernoulli_online(c):
     c.canary("canary_always_silent", z3.And(*[z3.Not(sl.f) for sl in slices]))
 
 
+def _with_draws(c, kind):
+    """install per-call fresh non-negative draws for the in-place samplers used by the online encoders; returns an
+    uninstaller.  Exponential draws are arbitrary reals >= 0; Poisson draws are arbitrary integers >= 0 that are 0 for
+    a zero rate."""
+    n = [0]
+    tn = c.interp.torch_ns._table
+    saved = (getattr(T, "exponential_", None), tn.get("poisson"), tn.get("empty_like"))
+
+    def fresh(tag, dtype="float"):
+        n[0] += 1
+        d = c.pw(f"{tag}_draw_{n[0]}", dtype)
+        c.require(d.f >= 0)
+        return d
+
+    def exponential_(self_t, lambd=1.0, generator=None):
+        d = fresh("exp")
+        return T(d.f, "float", None, None, self_t.eshape)
+
+    def poisson(rate, generator=None):
+        d = fresh("poisson", "int")
+        c.require(z3.Implies(tz.coerce(rate.f, "float") == 0, d.f == 0))
+        r = T(tz.coerce(d.f, "float"), "float", None, None, rate.eshape)
+        return r
+
+    T.exponential_ = exponential_
+    tn["poisson"] = poisson
+    tn["empty_like"] = lambda x, **k: T(x.f, x.dtype, None, None, x.eshape)
+
+    def undo():
+        if saved[0] is None:
+            del T.exponential_
+        else:
+            T.exponential_ = saved[0]
+        for k_, v in (("poisson", saved[1]), ("empty_like", saved[2])):
+            if v is None:
+                tn.pop(k_, None)
+            else:
+                tn[k_] = v
+
+    return undo
+
+
+@contract(P, "poisson_interval_online[steps<=3]", [(EN, "poisson_interval_online")])
+def poisson_online(c):
+    """generator form, CONCRETE number of steps (1-3, loop unrolled), everything else symbolic incl. every draw: yields
+    that many boolean slices, never a spike where the intensity is zero, at most one spike per step (trivially) and a
+    fresh interval is drawn exactly for the elements that fired"""
+    x = c.pw("intensity_hz")
+    dt = c.real("dt")
+    steps = c.choice("steps", [1, 2, 3])
+    c.require(x.f >= 0, dt > 0)
+    undo = _with_draws(c, "poisson")
+    try:
+        out = c.outcome(c.function(EN, "poisson_interval_online"), x, steps, dt)
+    finally:
+        undo()
+    c.expect_return(out)
+    slices = list(out.value)
+    c.ensure("yields_exactly_steps_slices", len(slices) == steps)
+    c.ensure("every_slice_boolean", all(sl.dtype == "bool" and sl.tlen is None for sl in slices))
+    c.ensure("silent_at_zero_intensity", z3.Implies(x.f == 0, z3.And(*[z3.Not(sl.f) for sl in slices])))
+    c.canary("canary_always_silent", z3.And(*[z3.Not(sl.f) for sl in slices]))
+
+
+@contract(P, "homogeneous_poisson_exp_interval_online[steps<=3]", [(EN, "homogeneous_poisson_exp_interval_online")])
+def refractory_online(c):
+    """generator form, CONCRETE number of steps (2, 3): after a spike the next interval is draw*scale + refrac/dt >= refrac/dt,
+    so with a refractory period of at least two (three) steps the next one (two) slices are silent"""
+    f_hz = c.pw("f_hz")
+    dt = c.real("dt")
+    steps = c.choice("steps", [2, 3])
+    rmode = c.choice("refrac", ["none", "value"])
+    refrac = c.real("refrac") if rmode == "value" else None
+    comp = c.choice("compensate", [True, False])
+    c.require(f_hz.f > 0, dt > 0)
+    rho = (refrac.z if refrac is not None else dt.z) / dt.z
+    if refrac is not None:
+        c.require(refrac >= 0)
+    if comp:
+        c.require(f_hz.f * (refrac.z if refrac is not None else dt.z) < 1000)  # the encoder module's own validity test
+    undo = _with_draws(c, "exp")
+    try:
+        out = c.outcome(c.function(EN, "homogeneous_poisson_exp_interval_online"), f_hz, steps, dt, refrac=refrac, compensate=comp)
+    finally:
+        undo()
+    c.expect_return(out)
+    slices = list(out.value)
+    c.ensure("yields_exactly_steps_slices", len(slices) == steps)
+    c.ensure("every_slice_boolean", all(sl.dtype == "bool" and sl.tlen is None for sl in slices))
+    c.ensure("no_spike_in_the_step_after_a_spike_when_refractory_two_steps", z3.Implies(z3.And(rho >= 2, slices[0].f), z3.Not(slices[1].f)))
+    if steps == 3:
+        c.ensure("no_spike_in_the_two_steps_after_a_spike_when_refractory_three_steps", z3.Implies(z3.And(rho >= 3, slices[0].f), z3.And(z3.Not(slices[1].f), z3.Not(slices[2].f))))
+        c.ensure("second_spike_also_respected", z3.Implies(z3.And(rho >= 2, slices[1].f), z3.Not(slices[2].f)))
+    c.canary("canary_never_two_spikes", z3.Not(z3.And(slices[0].f, slices[1].f)))
+
+
 EP = "inferno/neural/encoders/poisson.py"
 ES = "inferno/neural/encoders/special.py"
 EM = "inferno/neural/encoders/mixins.py"
@@ -203,6 +299,8 @@ _encoder("HomogeneousPoissonApproxEncoder", EP, "homogenous_poisson_bernoulli_ap
 _encoder("PoissonIntervalEncoder", ES, "poisson_interval", "poisson_interval_online", False)
 
 MUTANTS = [
+    dict(file=EN, func="poisson_interval_online", old="            spikes = torch.logical_and(intervals < 1, mask)", new="            spikes = intervals < 1", contracts=["poisson_interval_online[steps<=3]"], name="seed C19b: online Poisson-interval encoder fires at zero intensity"),
+    dict(file=EN, func="homogeneous_poisson_exp_interval_online", old="                * inputs[spikes]\n                + refrac\n            )\n            yield spikes", new="                * inputs[spikes]\n            )\n            yield spikes", contracts=["homogeneous_poisson_exp_interval_online[steps<=3]"], name="online refractory encoder: resampled interval without the refractory offset"),
     dict(file="inferno/neural/encoders/poisson.py", func="HomogeneousPoissonEncoder.forward", old="                refrac=self.refrac,\n                compensate=self.compensated,\n                generator=self.generator,\n            )\n        else:", new="                refrac=None,\n                compensate=self.compensated,\n                generator=self.generator,\n            )\n        else:", contracts=["HomogeneousPoissonEncoder.forward"], name="online encoding ignores the configured refractory period"),
     dict(file="inferno/neural/encoders/mixins.py", func="RefractoryStepMixin.dt@setter", old="        if self.__derive_refrac:\n            self.__refrac_time = StepMixin.dt.fget(self)", new="        pass", contracts=["HomogeneousPoissonEncoder.forward"], name="derived refractory period goes stale when dt changes"),
     dict(file=EN, func="homogeneous_poisson_exp_interval", old="refrac = step_time if refrac is None else refrac", new="refrac = step_time if refrac is None else step_time", contracts=["homogeneous_poisson_exp_interval[intervals]"], name="D19 regression: refrac argument ignored"),
